@@ -650,7 +650,7 @@ fn c05(args: &Args, rep: &mut Report, w: &Watch) {
         let mut rng = Rng::new(args.seed, &format!("c05|{}|{}", args.shard, i));
         let ndefs = if rng.chance(1, 2) { 1 + rng.below(3) } else { 0 };
         let (defs, s, t0) = {
-            let mut g = RandGen { rng: &mut rng, names: vec![], allow_any: false, allow_tpl: false };
+            let mut g = RandGen { rng: &mut rng, names: vec![], allow_any: false, allow_tpl: false, allow_exotic: false };
             let defs = if ndefs > 0 { g.defs(ndefs) } else { vec![] };
             let bs = 2 + g.rng.below(6);
             let s = g.ty(bs, true);
@@ -1001,6 +1001,9 @@ fn probe_values(a: &Runtype, b: &Runtype, defs: &Defs) -> Vec<Value> {
     lits.collect(a, defs, &mut seen);
     lits.collect(b, defs, &mut seen);
     let mut out: Vec<Value> = vec![Value::Absent, Value::Null, Value::Bool(true), Value::Bool(false), Value::Num(rm::FRESH_NUM), Value::Str(rm::FRESH_STR.into()), Value::Arr(vec![]), Value::Obj(BTreeMap::new()), Value::Tag(1 << 8), Value::Tag(1 << 9)];
+    for k in 0..rm::TYPED_KINDS.len() {
+        out.push(Value::Typed(k as u8));
+    }
     for n in &lits.nums {
         out.push(Value::Num(*n));
     }
@@ -1029,7 +1032,7 @@ fn c06_layer2(args: &Args, rep: &mut Report, w: &Watch) {
         let mut rng = Rng::new(args.seed, &format!("c06-l2|{}|{}", args.shard, i));
         let ndefs = if rng.chance(1, 3) { 1 + rng.below(2) } else { 0 };
         let (defs, a, b) = {
-            let mut g = RandGen { rng: &mut rng, names: vec![], allow_any: true, allow_tpl: false };
+            let mut g = RandGen { rng: &mut rng, names: vec![], allow_any: true, allow_tpl: false, allow_exotic: true };
             let defs = if ndefs > 0 { g.defs(ndefs) } else { vec![] };
             let ba = 1 + g.rng.below(6);
             let a = g.ty(ba, true);
@@ -1143,6 +1146,7 @@ fn c06_layer2(args: &Args, rep: &mut Report, w: &Watch) {
                         Value::Arr(_) => "list",
                         Value::Obj(_) => "mapping",
                         Value::Tag(_) => "bit-only-tag",
+                        Value::Typed(_) => "typed-array",
                     };
                     rep.violation(
                         &format!("semtype-{}-not-a-set-operation|{}|on-{}", op, pre_name, tag),
@@ -1310,6 +1314,7 @@ fn c07_case(rep: &mut Report, w: &Watch, a: &Runtype, b: &Runtype, defs: &[Named
             Value::Arr(_) => "list",
             Value::Obj(_) => "mapping",
             Value::Tag(_) => "bit-only-tag",
+            Value::Typed(_) => "typed-array",
         }
     };
     if negation_in_head {
@@ -1422,7 +1427,7 @@ fn c07(args: &Args, rep: &mut Report, w: &Watch) {
         let mut rng = Rng::new(args.seed, &format!("c07|{}|{}", args.shard, i));
         let ndefs = if rng.chance(2, 5) { 1 + rng.below(3) } else { 0 };
         let rng_any = rng.chance(1, 6);
-        let mut g = RandGen { rng: &mut rng, names: vec![], allow_any: rng_any, allow_tpl: true };
+        let mut g = RandGen { rng: &mut rng, names: vec![], allow_any: rng_any, allow_tpl: true, allow_exotic: false };
         let defs = if ndefs > 0 { g.defs(ndefs) } else { vec![] };
         let ba = 2 + g.rng.below(6);
         let a = if !defs.is_empty() && g.rng.chance(1, 3) { Runtype::ref_(defs[0].name.clone()) } else { g.ty(ba, true) };
